@@ -13,6 +13,16 @@ from .model import (BitArr, ClassInfo, ClassRef, EnumMember, FuncInfo, FuncRef, 
 # ------------------------------------------------------------------------------------------------ helpers
 
 
+class APop:
+    """number of one bits among the given bit forms (bin(x).count("1"), x.bit_count()); only comparison with a constant is modelled"""
+
+    def __init__(self, forms):
+        self.forms = list(forms)
+
+    def __repr__(self):
+        return f"APop({len(self.forms)} bits)"
+
+
 class ANeg:
     """the negative of a NON-ZERO abstract magnitude (sign-magnitude view of a negative integer); only abs(), comparison
     with 0 and multiplication by +-1 are modelled, anything else fails closed"""
@@ -25,7 +35,7 @@ class ANeg:
 
 
 def is_abs(v):
-    return isinstance(v, (AExt, ABits, AInt, AEnum, AObj, ATable, AView, ACond, AOpq, AFn, AFin, ASumVec, ANeg)) or \
+    return isinstance(v, (AExt, ABits, AInt, AEnum, AObj, ATable, AView, ACond, AOpq, AFn, AFin, ASumVec, ANeg, APop)) or \
         (isinstance(v, tuple) and any(is_abs(x) for x in v))
 
 
@@ -349,6 +359,31 @@ def _nonzero(fr, a) -> bool:
 
 def compare(fr, op, l, r, node):
     I = fr.I
+    if isinstance(l, APop) or isinstance(r, APop):
+        flipm = {ast.Lt: ast.Gt, ast.Gt: ast.Lt, ast.LtE: ast.GtE, ast.GtE: ast.LtE, ast.Eq: ast.Eq, ast.NotEq: ast.NotEq}
+        if isinstance(r, APop):
+            if type(op) not in flipm:
+                raise Abort("population count in an unmodelled comparison")
+            l, r, op = r, l, flipm[type(op)]()
+        if not (isinstance(r, int) and not isinstance(r, bool)) or type(op) not in flipm:
+            raise Abort("population count compared with a non-constant")
+        forms = I.simp_bits(l.forms)
+        ones = sum(1 for b in forms if isinstance(b, F) and b.is_const and b.c == 1)
+        free = [b for b in forms if not (isinstance(b, F) and b.is_const)]
+        lo, hi = ones, ones + len(free)
+        import operator
+        opf = {ast.Lt: operator.lt, ast.LtE: operator.le, ast.Gt: operator.gt, ast.GtE: operator.ge, ast.Eq: operator.eq, ast.NotEq: operator.ne}[type(op)]
+        vals = {opf(c, r) for c in range(lo, hi + 1)}
+        if len(vals) == 1:
+            return vals.pop()
+        # "no free bit is set" is linear: decided exactly
+        if ones == 0 and ((isinstance(op, ast.LtE) and r == 0) or (isinstance(op, ast.Lt) and r == 1) or (isinstance(op, ast.Eq) and r == 0)):
+            return I.decide_eq(free, 0, f"{fr.fi.name}:{getattr(node, 'lineno', 0)}:popcount==0")
+        if ones == 0 and ((isinstance(op, ast.Gt) and r == 0) or (isinstance(op, ast.GtE) and r == 1) or (isinstance(op, ast.NotEq) and r == 0)):
+            return not I.decide_eq(free, 0, f"{fr.fi.name}:{getattr(node, 'lineno', 0)}:popcount==0")
+        # a genuine threshold on a population count is not linear: an undecided condition that REMEMBERS its operands, so that a
+        # checker can validate a reported difference with a concrete witness (see popcount_witness)
+        return ACond("popcnt", tuple(forms), type(op).__name__, r)
     if isinstance(l, ANeg) or isinstance(r, ANeg):
         a, b, flip = (l, r, False) if isinstance(l, ANeg) else (r, l, True)
         if isinstance(b, int) and not isinstance(b, bool) and b >= 0 and not isinstance(op, (ast.In, ast.NotIn, ast.Is, ast.IsNot)):
@@ -477,6 +512,25 @@ def compare(fr, op, l, r, node):
                 return False
             if isinstance(op, ast.Gt) and rc < lo or isinstance(op, ast.GtE) and rc <= lo:
                 return True
+        if getattr(I, "exact_ordering", False) and l.ext is None and not l.signed and len(l.bits) <= 64 and rc >= 0:
+            # exact decision, most significant bit first: the first position where the value's bit differs from the constant's
+            # decides the order (at most one fork per bit, each adding a linear path constraint)
+            w = max(len(l.bits), rc.bit_length())
+            verdict = None   # 'lt' | 'gt' | None (equal so far)
+            for j in range(w - 1, -1, -1):
+                cb = (rc >> j) & 1
+                vb = I.simp(l.bit(j))
+                if isinstance(vb, F) and vb.is_const:
+                    if vb.c != cb:
+                        verdict = "gt" if vb.c > cb else "lt"
+                        break
+                    continue
+                if I.decide_eq([vb], 1 - cb, f"{fr.fi.name}:{getattr(node, 'lineno', 0)}:order-bit{j}"):
+                    verdict = "gt" if cb == 0 else "lt"
+                    break
+            if verdict is None:
+                return isinstance(op, (ast.LtE, ast.GtE))
+            return (verdict == "lt") if isinstance(op, (ast.Lt, ast.LtE)) else (verdict == "gt")
         from .model import CMP
         v = try_lift(CMP[type(op)], l, rc)
         if v is not None:
@@ -687,6 +741,11 @@ def getattr_(fr, base, attr, node):
             return ClassRef(ci.nested[attr])
         if attr == "__name__":
             return ci.name
+        if attr == "__members__" and repo.is_enum(ci):
+            return dict(repo.enum_members(ci))
+        if attr.startswith("__") and attr.endswith("__"):
+            # attributes every class object has (or may inherit from a metaclass): not modelled — never reported as a crash of the code
+            raise Abort(f"class attribute {ci.name}.{attr} is not modelled")
         raise PathRaise("AttributeError", f"{ci.name}.{attr}")
     if isinstance(base, ModRef):
         try:
@@ -939,8 +998,31 @@ def subscript(fr, base, sl, node):
 # ------------------------------------------------------------------------------------------------ calls
 
 
+def popcount_operand(n: ast.Call):
+    """the X of bin(X).count("1") / X.bit_count() / int.bit_count(X), else None"""
+    f = n.func
+    if isinstance(f, ast.Attribute) and f.attr == "count" and len(n.args) == 1 and isinstance(n.args[0], ast.Constant) and n.args[0].value == "1" \
+            and isinstance(f.value, ast.Call) and isinstance(f.value.func, ast.Name) and f.value.func.id == "bin" and len(f.value.args) == 1:
+        return f.value.args[0]
+    if isinstance(f, ast.Attribute) and f.attr == "bit_count" and not n.args:
+        return f.value
+    if isinstance(f, ast.Attribute) and f.attr == "bit_count" and isinstance(f.value, ast.Name) and f.value.id == "int" and len(n.args) == 1:
+        return n.args[0]
+    return None
+
+
 def call(fr, n: ast.Call):
     I = fr.I
+    px = popcount_operand(n)
+    if px is not None:
+        x = fr.ev(px)
+        if isinstance(x, AInt) and x.ext is None and not x.signed:
+            bits = I.simp_bits(x.bits)
+            if all(isinstance(b, F) and b.is_const for b in bits):
+                return sum(b.c for b in bits)
+            return APop(bits)
+        if isinstance(x, int) and not isinstance(x, bool):
+            return bin(x).count("1")
     f = fr.ev(n.func)
     args = []
     for a in n.args:
@@ -1565,6 +1647,14 @@ def bits_method(fr, b: ABits, name, args, kw, n):
         b.items.extend(fr.to_bitlist(args[0]))
         return None
     if name == "append":
+        if b.kind == "bytes":
+            # bytearray.append(int): one octet; a value that may exceed 255 raises ValueError for those inputs
+            x = fr.to_int(args[0])
+            hi = I.simp_bits(x.bits[8:]) if x.ext is None else None
+            if hi is None or not all(isinstance(t, F) and t.is_const and t.c == 0 for t in hi):
+                raise PartialRaise("ValueError", f"bytearray.append of a value wider than 8 bits at {fr.fi.module.relpath}:{n.lineno}")
+            b.items.extend(x.msb_first(8))
+            return None
         b.items.append(fr.to_bit(args[0]))
         return None
     if name == "frombytes":
@@ -1796,3 +1886,57 @@ def deep_copy(v, deep=True, memo=None):
         t.cells = [list(r) for r in v.cells]
         return t
     return v
+
+
+def popcount_witness(I, st, diff_forms, max_weight=2):
+    """Paths that assumed a population-count threshold carry no constraint for it.  Before a difference found on such a path is
+    reported, look for a CONCRETE assignment of the counted bits (0, 1 or 2 of the free bits set) under which every threshold
+    condition of the path evaluates the way the path decided it and some difference bit is still 1 (or free).  Returns
+    None if the path has no such condition, else (found: bool, description)."""
+    import itertools
+    import operator
+    conds = [(k, v) for k, v in st.conds.items() if isinstance(k, tuple) and k and k[0] == "popcnt"]
+    if not conds:
+        return None
+    opf = {"Lt": operator.lt, "LtE": operator.le, "Gt": operator.gt, "GtE": operator.ge, "Eq": operator.eq, "NotEq": operator.ne}
+    parsed = []
+    for k, decided in conds:
+        forms, opname, r = k[1]
+        parsed.append((list(forms), opf[opname], r, decided))
+    # candidate assignments: drive the bits counted by the LAST condition decided true (else the last one)
+    drive = next((p for p in reversed(parsed) if p[3]), parsed[-1])
+    free_idx = [i for i, f in enumerate(I.simp_bits(drive[0])) if not (isinstance(f, F) and f.is_const)]
+    for w in range(0, max_weight + 1):
+        for combo in itertools.combinations(free_idx, w):
+            lin = st.lin.copy()
+            ok = True
+            for i, f in enumerate(drive[0]):
+                f = lin.reduce(f)
+                want = 1 if i in combo else 0
+                if isinstance(f, F) and f.is_const:
+                    continue
+                if lin.add(f ^ want) == "contradiction":
+                    ok = False
+                    break
+            if not ok:
+                continue
+            good = True
+            for forms, fn, r, decided in parsed:
+                vals = [lin.reduce(f) for f in forms]
+                if not all(isinstance(v, F) and v.is_const for v in vals):
+                    # bits of another counted word still free: give them the value 0 as well
+                    for v in vals:
+                        if not v.is_const:
+                            if lin.add(v) == "contradiction":
+                                good = False
+                    vals = [lin.reduce(f) for f in forms]
+                if not good or fn(sum(v.c for v in vals), r) != decided:
+                    good = False
+                    break
+            if not good:
+                continue
+            red = [lin.reduce(d) for d in diff_forms]
+            if any((isinstance(d, F) and (not d.is_const or d.c == 1)) for d in red):
+                word = "".join(str(lin.reduce(f).c) if lin.reduce(f).is_const else "x" for f in drive[0])
+                return True, f"witness: counted word = {word} ({word.count('1')} bit(s) set)"
+    return False, "no witness with up to 2 set bits satisfies the path's population-count conditions"
